@@ -15,10 +15,10 @@ func init() {
 }
 
 type pairCfg struct {
-	sPMD, cPMD             gws.PermessageDeflate
-	utf8                   bool
-	parallel               bool
-	rlimit, wlimit         int
+	sPMD, cPMD     gws.PermessageDeflate
+	utf8           bool
+	parallel       bool
+	rlimit, wlimit int
 }
 
 type e2ePair struct {
